@@ -68,8 +68,17 @@ func runCmac(c *ctx) error {
 	if err != nil {
 		return err
 	}
+	// purity also means: no memory of earlier calls. Two thirds of the calls hand the key over in
+	// one and the same caller-owned buffer that is overwritten in place between calls.
+	shared := make([]byte, 24)
 	for i, k := range cases {
 		key, msg := hx.UnH(k.Key), hx.UnH(k.Msg)
+		if i%3 != 0 {
+			copy(shared[4:20], key)
+			key = shared[4:20:20]
+			c.res.Count("key-in-reused-buffer")
+		}
+		keyBefore := append([]byte{}, key...)
 		post := 8
 		back := make([]byte, k.Pre+len(msg)+k.Spare+post)
 		for j := range back {
@@ -102,7 +111,11 @@ func runCmac(c *ctx) error {
 		}
 		if impl != kv["spec"] {
 			c.res.Add(hx.Finding{Kind: "propfail", Engine: "cmac", Signature: "cmac-not-rfc4493", Case: k, Impl: impl, Spec: kv["spec"],
-				Note: "AESCMAC differs from RFC 4493"})
+				Note: "AESCMAC differs from RFC 4493 (call " + fmt.Sprint(i) + " of the sequence; keys of two calls in three are passed in one reused buffer)"})
+		}
+		if !bytes.Equal(keyBefore, key) {
+			c.res.Add(hx.Finding{Kind: "propfail", Engine: "cmac", Signature: "cmac-impure", Case: k, Impl: hx.H(key), Spec: hx.H(keyBefore),
+				Note: "AESCMAC modified the caller's key"})
 		}
 		if !bytes.Equal(before, back) {
 			c.res.Add(hx.Finding{Kind: "propfail", Engine: "cmac", Signature: "cmac-impure", Case: k, Impl: hx.H(back), Spec: hx.H(before),
